@@ -60,6 +60,11 @@ def run(v):
             v.failure({"kind": "model", "invariant": r.violated}, {"tlc_output": r.output[-3000:]})
         v.add_mc("MC_Dict/" + cfg, r, "every word list within bounds x every query: membership, back-end "
                  "agreement (modulo Id clashes), merged = union, exact sanity, distance algorithms, mutable fuzzy")
+    # a seeded deviation (a child of the merged dictionary dropped because its unseparated hash collides) must be refuted
+    rdd = common.tlc(os.path.join(SPEC, "mc", "MC_Dict.tla"), os.path.join(SPEC, "mc", "MC_Dict_dev_dedup.cfg"), "c15_mc_dev",
+                     workers=2, timeout=600, coverage=False)
+    if rdd.violated != "MergedIsUnion":
+        raise common.ToolError("MC_Dict: the dedup-by-concatenation deviation is not refuted (vacuous invariant)")
     rg = common.tlc(os.path.join(SPEC, "mc", "MC_Dict.tla"),
                     os.path.join(SPEC, "mc", "MC_Dict_gen_thorough.cfg" if thorough else "MC_Dict_gen.cfg"),
                     "c15_gen", workers=8, coverage=False, timeout=1800)
